@@ -612,7 +612,7 @@ def sfqr(data, name=None):
             chunks=(cr, data.chunks[1][1:]),
             meta=A_rest_meta,
         )
-        Rs.append(Q.T.dot(A_rest))
+        Rs.append(Q.T.conj().dot(A_rest))
 
     R = concatenate(Rs, axis=1)
 
